@@ -828,12 +828,13 @@ static void op_ctr_wait (op_t *o) {
 	r = nsync_counter_wait (W.ctr[c], dl_time (dl_ns));
 	}
 	if (nsim_op_sleeps () > 0) { nsim_probe (PR_BLOCKED); nsim_probe (PR_CTR_ZERO_WAITERS); }
-	/* (with the note scanned first, nsync_wait_n may briefly queue for the note's internal mutex against other callers: not the counter's doing) */
+	/* (only for nsync_counter_wait itself: through nsync_wait_n the scan of the other object may briefly queue for that object's
+	   internal mutex against other callers, in whichever order the objects are scanned -- not the counter's doing) */
 	if (r == 0 && CM[c].zero_ns >= 0 && nsim_op_last_timer_wake_ns () > CM[c].zero_ns) {
 		VIOL ("C10", "released-only-by-own-timer", "a counter wait reports zero but the waiter slept until its own timer fired, %lld ns after the add that "
 		      "produced zero had returned (it releases every waiter before it returns)", (long long) (nsim_op_last_timer_wake_ns () - CM[c].zero_ns));
 	}
-	if (zero_before && nsim_op_sleeps () > 0 && !(o->a[2] == 2 && S.nnote > 0)) {
+	if (zero_before && nsim_op_sleeps () > 0 && !(o->a[2] != 0 && S.nnote > 0)) {
 		VIOL ("C10", "wait-after-zero-blocked", "nsync_counter_wait started after an add had returned 0 but slept %d times", nsim_op_sleeps ());
 	}
 	nsim_op_end ();
